@@ -76,6 +76,12 @@ func init() {
 		e.setVal(res, "Int", sx(f, a[0], a[1]))
 		return true
 	}}
+	L["strings.LastIndex"] = LibModel{Doc: "greatest index of the separator, -1 if absent: a deterministic function of its arguments, bounded by -1 <= r and r + len(sep) <= len(s) when found", Fn: func(e *FuncEnc, in ssa.Instruction, av []ssa.Value, a []string, rts []types.Type, res ssa.Value) bool {
+		f := e.D.UF("str_lastindex", []string{"Str", "Str"}, "Int")
+		e.D.Axiom("str_lastindex", "(forall ((s Str) (p Str)) (! (and (>= (str_lastindex s p) (- 1)) (<= (+ (str_lastindex s p) (slen p)) (+ (slen s) (ite (= (str_lastindex s p) (- 1)) (+ 1 (slen p)) 0)))) :pattern ((str_lastindex s p))))")
+		e.setVal(res, "Int", sx(f, a[0], a[1]))
+		return true
+	}}
 	L["strings.IndexByte"] = LibModel{Doc: "least index of the byte, -1 if absent", Fn: func(e *FuncEnc, in ssa.Instruction, av []ssa.Value, a []string, rts []types.Type, res ssa.Value) bool {
 		e.setVal(res, "Int", sx("sidx", a[0], a[1]))
 		return true
@@ -180,7 +186,7 @@ func init() {
 		return true
 	}}
 	L["net/http.CanonicalHeaderKey"] = pureUF("canonical MIME header key: a deterministic function of its argument")
-	for _, n := range []string{"strings.ReplaceAll", "strings.Contains", "strings.ToLower", "strings.ToUpper", "strings.Title", "strings.Join", "strings.TrimSpace", "strings.Repeat", "strings.Count", "strings.EqualFold", "strings.LastIndex", "strings.ContainsRune", "strings.Trim", "strings.TrimLeft", "strings.TrimRight", "strings.Fields",
+	for _, n := range []string{"strings.ReplaceAll", "strings.Contains", "strings.ToLower", "strings.ToUpper", "strings.Title", "strings.Join", "strings.TrimSpace", "strings.Repeat", "strings.Count", "strings.EqualFold", "strings.ContainsRune", "strings.Trim", "strings.TrimLeft", "strings.TrimRight", "strings.Fields",
 		"path.Dir", "path.Base", "path.Ext", "path/filepath.Join", "path/filepath.Base", "path/filepath.Ext", "path/filepath.Dir",
 		"unicode.IsLetter", "unicode.IsUpper", "unicode.IsDigit", "unicode.IsLower", "unicode.ToUpper", "unicode.ToLower",
 		"strconv.Itoa", "strconv.Quote", "strconv.FormatInt", "strconv.FormatFloat", "strconv.FormatBool", "strconv.FormatUint",
